@@ -8,7 +8,8 @@
      EData t p       a DATA frame header announcing t payload bytes, followed by the first bytes p of them
      EMore bs        further payload bytes of the open DATA frame
      EPartial        a strict prefix of a frame (header) that nothing completes
-     EFin / EReset c the peer's FIN / RESET_STREAM(c)
+     EFin / EReset o the peer's FIN / the receive half fails: RESET_STREAM(c) for o = Some c, a transport-specific
+                     stream failure (StreamErrorIncoming::Unknown) for o = None
    plus, out of band, STOP_SENDING(c) for our sending half.
 
    The specification is the table [classify]: for a script in the class of the property (a healthy
@@ -23,7 +24,7 @@ Inductive ev :=
 | EMore (bs : bytes)
 | EPartial
 | EFin
-| EReset (code : N).
+| EReset (code : option N).
 Inductive role := Server | Client.
 
 (* transport calls h3 makes on the request's own stream, and the frames it writes there *)
@@ -69,9 +70,16 @@ Inductive allowance :=
     (* that stream-level error; exactly these reset/stop_sending calls; the delivered bytes are a prefix of
        [upto]; frames written as given when constrained *)
 
+(* a failed receive half: RemoteTerminate with the peer's code for a RESET, Undefined for a transport-specific failure *)
+Definition reset_allowance (o : option N) (upto : bytes) : allowance :=
+  match o with
+  | Some code => AErr KRemoteTerminate (Some code) [] upto None
+  | None => AErr KUndefined None [] upto None
+  end.
+
 (* ---------- the body of a message: DATA frames cut into chunks, then how it ends *)
 (* EndFinT k: a trailer section k, then FIN *)
-Inductive ending := EndFin | EndFinT (k : hkind) | EndReset (c : N) | EndBad.
+Inductive ending := EndFin | EndFinT (k : hkind) | EndReset (c : option N) | EndBad.
 
 (* scan_body r acc P: r payload bytes of the open DATA frame are still owed; returns the payload
    bytes in order and how the stream ends.  Anything outside the grammar is EndBad. *)
@@ -124,7 +132,7 @@ Definition classify_script (c : rcfg) (s : list ev) : option (list allowance) :=
           | Client => Some [AErr KHeaderTooBig None [CStop RFC_H3_REQUEST_CANCELLED] d None]
           end
       | (_, EndFinT HBadQpack) => None
-      | (d, EndReset code) => Some [AErr KRemoteTerminate (Some code) [] d None]
+      | (d, EndReset o) => Some [reset_allowance o d]
       | (_, EndBad) => None
       end
   | EHeaders HMalformed :: _ =>
@@ -147,8 +155,8 @@ Definition classify_script (c : rcfg) (s : list ev) : option (list allowance) :=
       | Server => Some [AErr KStreamError (Some RFC_H3_REQUEST_INCOMPLETE) [CReset RFC_H3_REQUEST_INCOMPLETE] [] (Some [])]
       | Client => None
       end
-  | EReset code :: [] => Some [AErr KRemoteTerminate (Some code) [] [] None]
-  | EPartial :: EReset code :: [] => Some [AErr KRemoteTerminate (Some code) [] [] None]
+  | EReset o :: [] => Some [reset_allowance o []]
+  | EPartial :: EReset o :: [] => Some [reset_allowance o []]
   | _ => None
   end.
 
